@@ -274,12 +274,24 @@ def ob_pair(cls, timeout=60):
 TYPE_SPLIT = ['Color3DCode', 'Color666ToricCode']
 
 
+def ob_unplannable(cls, why):
+    raise Unsupported('obligations of %s could not be generated: %s' % (cls, why))
+
+
 def obligations(tier):
     to = 150 if tier == 'quick' else 900       # z3 time limit per query; the slowest quick obligation takes 30 s alone and up to 125 s with 16 solvers running
     obs = []
     for cls in P_COMM:
-        lat, pre = lattice(cls)
-        ars = lat.stab_arities()
+        try:
+            lat, pre = lattice(cls)
+            ars = lat.stab_arities()
+            if cls in P_LOG:
+                for k in 'xz':
+                    lat.logicals(k)
+        except Unsupported as e:
+            # the class's lattice definition has left the subset the builder rule handles: its obligations are undecided (one `lost` entry), the others stay
+            obs.append(Ob('C01.plan[%s]' % cls, ob_unplannable, dict(cls=cls, why=str(e)), timeout=30, kind='state'))
+            continue
         for ra, rb in itertools.combinations_with_replacement(ars, 2):
             if cls in TYPE_SPLIT:
                 a = [z3.Int('a%d' % i) for i in range(ra)]
